@@ -1649,7 +1649,28 @@ func callBin(n *node) {
 
 			switch {
 			case isEmptyInterface(c.typ):
-				values = append(values, genValue(c))
+				val := genValue(c)
+				values = append(values, func(f *frame) reflect.Value {
+					v := val(f)
+					if !v.IsValid() || !v.CanInterface() {
+						return v
+					}
+					vi, ok := v.Interface().(valueInterface)
+					if !ok || vi.node == nil {
+						return v
+					}
+					if getMapType != nil {
+						if rt := getMapType(vi.node.typ); rt != nil {
+							return genInterfaceWrapper(vi.node, rt)(f)
+						}
+					}
+					// Compiled code receives the value itself, not the wrapper which
+					// carries its interpreted type.
+					if cv := valueInterfaceValue(v); cv.IsValid() {
+						return cv
+					}
+					return v
+				})
 			case isInterfaceSrc(c.typ):
 				if defType.Kind() == reflect.Interface && defType.NumMethod() > 0 {
 					// The methods of the value held by the interface are called through a wrapper.
